@@ -123,7 +123,13 @@ def check_best_predicate(prog, r):
                 r.fail(root_name(prog, k), "best-read-ignores-nexthop-validity@%s" % _which_read(fv, bi),
                        "the best-path read at line %d selects the first entry that is not filtered but accepts a next-hop-invalid one: "
                        "best_changed then compares against an entry that was never the selected best" % fv.line(bi), fv.loc(bi))
-    r.floor("find-based best reads in the table crate", n, 2)
+    # reads through Destination::unfiltered_best use the selection's own predicate by construction; the floor counts both forms
+    m = 0
+    for k in crate_fns(prog, "rustybgp_table"):
+        if "::tests::" in prog.ix[k]["name"] or not any("NlriChange" in a for a in prog.ix[k].get("aggs", [])):
+            continue
+        m += sum(1 for c in prog.ix[k]["calls"] if (c["f"].get("rname") or c["f"].get("name") or "").endswith("Destination::unfiltered_best"))
+    r.floor("best-path reads (unfiltered_best or eligibility find) in functions that build an NlriChange", n + m, 14)
 
 
 def _which_read(fv, bi):
